@@ -46,7 +46,7 @@ def run(chk, repo: Repo):
                        "by every writer of what it was computed from", floor=1)
     chk.rule("C07-R4", "par->par bound methods are not stored into raw (fun->fun) operator slots", floor=1)
     chk.rule("C07-R5", "get_matrix: column i is forward(e_i), materialised in the same iteration before the buffer is reset; assembled from the forward map only "
-                       "(never from adjoint(e_i): the adjoint is what the matrix is compared with)", floor=1)
+                       "(never from adjoint(e_i): the adjoint is what the matrix is compared with); what is stored is the column itself, not a thresholded / rounded function of it", floor=1)
     chk.rule("C07-R6", "shipped 2-D convolution pair: the adjoint-by-flipped-kernel shortcut is used only where padding commutes with transposition "
                        "(zero and periodic extension) and mirrors the even-size crop", floor=3)
     _r6(chk, repo)
